@@ -269,6 +269,9 @@ def _inv(sysm):
     return True, ""
 
 
+COVERS_STATIC = [System.add, System.remove, System.pop, System.extend, System.assemble]
+
+
 @static("C14", "System/registry-invariant")
 def s_registry(tier):
     alphabet = ["a", "b", "a_contr1", "a_contr2", "a_contr3"]
